@@ -512,7 +512,7 @@ def _zip(members: T.List[T.Tuple[str, bytes]], comment_flip: bool = False) -> by
 SP_BUILD = "project('sp', version: '{v}')\nmessage('SP-CONFIGURED')\nfoo_dep = declare_dependency(version: '{v}')\n"
 DATA_TXT = 'line one\nline two\nline three\n'
 DIFF_OK = ('--- a/data.txt\n+++ b/data.txt\n@@ -1,3 +1,4 @@\n line one\n line two\n+DIFF-APPLIED\n line three\n')
-DIFF_BAD = ('--- a/data.txt\n+++ b/data.txt\n@@ -1,3 +1,4 @@\n completely different\n context lines\n+DIFF-APPLIED\n that do not match\n')
+DIFF_BAD = ('--- a/data.txt\n+++ b/data.txt\n@@ -1,3 +1,3 @@\n line one\n-this line is not in the file\n+DIFF-APPLIED\n line three\n')
 
 
 def make_variants(case: dict) -> T.Dict[str, bytes]:
@@ -805,12 +805,9 @@ CORR = {'G': 'good', 'F': 'flipped', 'O': 'other-archive', 'T': 'truncated', 'X'
 
 
 def judge_b(case: dict, obs: T.List[dict], info: dict) -> T.Optional[Failure]:
-    unpacked_by_us = False
     for i, o in enumerate(obs):
         nd = o['nodownload']
         ctx = f"run {i} ({o['cmd']}, wrap_mode={case['wm']}) rc={o['rc']} snapshot={ {k: o['snap'][k] for k in ('markers', 'dir', 'buildfile', 'diffed', 'cache')} }"
-        if o['crash']:
-            return Failure('wrap/crash', case, f'unhandled exception in {ctx}\n{o["tail"]}')
         ver_s = info['verified'][('source', nd)]
         ver_p = info['verified'][('patch', nd)]
         # markers accumulated over the runs: an archive may have been legitimately unpacked by an earlier run in another mode
@@ -829,20 +826,24 @@ def judge_b(case: dict, obs: T.List[dict], info: dict) -> T.Optional[Failure]:
                 return Failure(sig, case, f'marker {m} is present under subprojects/ but the archive it came from '
                                f"(sha256 {info['hashes'].get(m)}) is not a verified {role} (recorded {role}_hash {rec}; verified "
                                f'variants here: {sorted(allowed)}); {ctx}\n{o["tail"][-700:]}')
-        new_dir = o['snap']['dir'] and not o['before']['dir']
-        unpacked_by_us = unpacked_by_us or new_dir
         if nd:
             if o['snap']['cache'] != o['before']['cache']:
                 return Failure('nodownload/packagecache-changed', case, f"packagecache {o['before']['cache']} -> {o['snap']['cache']} under "
                                f'wrap_mode=nodownload; {ctx}')
             if o['requests']:
                 return Failure('nodownload/http-request', case, f"requests {o['requests']} were made under wrap_mode=nodownload; {ctx}")
-        ok = o['rc'] == 0
+        # rc==0 together with "ERROR: Unhandled python OSError" is the confirmed finding exit-0-after-unhandled-OSError
+        # (mesonmain.errorhandler returns `e.errno or 0`): judged by the dedicated probe only, here such a run counts as failed
+        ok = o['rc'] == 0 and not o['crash']
         pst = info[('pstate', nd)]
+        prepared_before = o['before']['dir']
+        # a verified-but-corrupt source (the wrap records the hash of a broken archive) can leave a partially extracted
+        # directory behind; the property only speaks about failed patch/diff steps, so that residue is not judged
+        src_corrupt = any(v[1] in 'TX' for v in ver_s_any)
         if ok and o['cmd'] == 'setup' and not o['found']:
             return Failure('wrap/required-lookup-succeeded-without-dependency', case, f'setup succeeded but dependency not reported found; {ctx}')
-        if ok and not (o['cmd'] == 'download' and o['before']['dir']):
-            # success must be backed by verified material, fully prepared  [P]
+        if ok and not src_corrupt:
+            # a successful run must stand on verified, fully prepared material  [P]
             smarks = [m for m in o['snap']['markers'] if m[0] == 's']
             if not smarks:
                 why = 'no verified source exists' if not ver_s_any else 'no source marker present'
@@ -853,13 +854,13 @@ def judge_b(case: dict, obs: T.List[dict], info: dict) -> T.Optional[Failure]:
                 return Failure('halfprepared/accepted:no-diff', case, f'run succeeded although the diff file was not applied; {ctx}\n{o["tail"][-700:]}')
             if o['cmd'] == 'setup' and not o['snap']['buildfile']:
                 return Failure('halfprepared/accepted:no-buildfile', case, f'setup succeeded without a build file in the subproject; {ctx}')
-        if pst == 'unsat' and source_clean(case):
+        if pst == 'unsat' and source_clean(case) and not prepared_before:
             # the source is fine, so the only thing that fails is the patch/diff stage  [P last sentence]
-            if o['snap']['dir'] and not o['before']['dir']:
+            if o['snap']['dir']:
                 return Failure('halfprepared/dir-left-after-failed-patch', case,
                                f'the patch/diff stage cannot succeed ({case["patch"]}, diff={case["diff"]}) but subprojects/{DIRNAME} '
                                f'was left behind; {ctx}\n{o["tail"][-700:]}')
-            if ok and not (o['cmd'] == 'download' and o['before']['dir']):
+            if ok:
                 return Failure('halfprepared/accepted:failed-patch-stage', case, f'the patch/diff stage cannot succeed but the run succeeded; {ctx}')
         # fully clean case must work (anchor: without it every other clause could hold vacuously)
         if i == 0 and source_clean(case) and pst in ('none', 'clean') and case['buildfile'] != 'none' and not ok:
@@ -901,6 +902,10 @@ def check_b(case: dict, ev: Evidence) -> T.Optional[Failure]:
     ev.case(case, nontrivial=nontrivial_b(case), cls=class_b(case))
     if any(o['snap']['dir'] and not o['snap']['buildfile'] and o['rc'] != 0 for o in obs):
         ev.event('B-note:dir-without-buildfile-left-after-failed-run(not a patch/diff failure)')
+    if any(o['crash'] and o['rc'] == 0 for o in obs):
+        ev.exclude('run printed "Unhandled python OSError" and exited 0 (known finding, judged by the probe): treated as a failed run')
+    if any(o['crash'] for o in obs):
+        ev.event('B-note:unhandled-python-exception-on-corrupt-archive(outside the property)')
     if any(any(x.startswith('tmp') for x in o['snap']['cache']) for o in obs):
         ev.event('B-note:temp-file-left-in-packagecache')
     if f is None:
@@ -966,6 +971,8 @@ def systematic_b() -> T.List[dict]:
     def mk(**kw: T.Any) -> dict:
         c = base_b()
         c.update(json.loads(json.dumps(kw)))
+        if c['patch'] is None and c['buildfile'] == 'patch':
+            c['buildfile'] = 'none'
         return c
 
     runs_all = [['setup', 'setup'], ['setup', 'download'], ['download', 'setup'], ['download', 'download']]
